@@ -45,13 +45,23 @@ def apply_op(op, maps):
 
 def ev(tree, data):
     if isinstance(tree, str):
-        return data[tree]
+        return data[tree.split("~")[0]]
     return apply_op(tree[0], [ev(t, data) for t in tree[1]])
+
+
+MEASURES = []      # measure names of the case being rendered (set by run_case)
 
 
 def render(tree):
     if isinstance(tree, str):
-        return tree
+        name, _, form = tree.partition("~")
+        if form == "keepswap" and len(MEASURES) >= 2:
+            return f"{name}[keep {', '.join(reversed(MEASURES))}]"      # same content, other physical column order
+        if form == "calcsame" and MEASURES:
+            return f"{name}[calc {MEASURES[0]} := {MEASURES[0]}]"
+        if form == "filtertrue":
+            return f"{name}[filter true]"
+        return name
     return f"{tree[0]}({', '.join(render(t) for t in tree[1])})"
 
 
@@ -67,7 +77,10 @@ def gen_tree(rng, names, d):
         if d > 0 and rng.random() < 0.3:
             kids.append(gen_tree(rng, names, d - 1))
         else:
-            kids.append(rng.choice(names))
+            leaf = rng.choice(names)
+            if rng.random() < 0.2:
+                leaf += "~" + rng.choice(["keepswap", "keepswap", "calcsame", "filtertrue"])     # operand is a clause result
+            kids.append(leaf)
     return [op, kids]
 
 
@@ -94,11 +107,15 @@ def make_case(rng):
     for i in range(nds):
         mode = rng.random()
         n = 0 if mode < 0.08 else (len(keys) if mode < 0.2 else None)
-        rows = gen.rand_rows(rng, comps, keys, n=n, null_p=0.15)
+        dcomps = list(comps)
+        if not idonly and rng.random() < 0.35:
+            # Integer in one operand, Number in another: the result is Number and keeps every value exactly
+            dcomps = [(c[0], rng.choice(["Integer", "Number"]), c[2], c[3]) if c[2] == "Measure" and c[1] in ("Integer", "Number") else c for c in comps]
+        rows = gen.rand_rows(rng, dcomps, keys, n=n, null_p=0.15)
         order = list(range(len(comps)))
         if rng.random() < 0.5:
             rng.shuffle(order)
-        dss.append({"name": f"DS_{i + 1}", "order": order, "rows": [list(r) for r in rows]})
+        dss.append({"name": f"DS_{i + 1}", "order": order, "rows": [list(r) for r in rows], "types": [c[1] for c in dcomps]})
     tree = gen_tree(rng, [d["name"] for d in dss], rng.choice([0, 0, 1, 2]))
     return {"comps": [list(c) for c in comps], "dss": dss, "tree": tree, "colseed": rng.randrange(1 << 30)}
 
@@ -106,7 +123,7 @@ def make_case(rng):
 def used(tree, acc=None):
     acc = [] if acc is None else acc
     if isinstance(tree, str):
-        acc.append(tree)
+        acc.append(tree.split("~")[0])
     else:
         for t in tree[1]:
             used(t, acc)
@@ -122,8 +139,11 @@ def run_case(case, emit):
     data, dss, dfs = {}, [], {}
     for d in case["dss"]:
         data[d["name"]] = {tuple(r[:nid]): tuple(r) for r in d["rows"]}
-        dss.append(eng.mkds(d["name"], [comps[i] for i in d["order"]]))
-        dfs[d["name"]] = gen.frame(comps, [tuple(r) for r in d["rows"]], rng, shuffle_cols=True)
+        dcomps = [(c[0], t, c[2], c[3]) for c, t in zip(comps, d.get("types") or [c[1] for c in comps])]
+        dss.append(eng.mkds(d["name"], [dcomps[i] for i in d["order"]]))
+        dfs[d["name"]] = gen.frame(dcomps, [tuple(r) for r in d["rows"]], rng, shuffle_cols=True)
+    del MEASURES[:]
+    MEASURES.extend(c[0] for c in comps if c[2] == "Measure")
     tree = case["tree"]
     script = f"DS_r <- {render(tree)};"
     expected = list(ev(tree, data).values())
